@@ -273,8 +273,17 @@ def check_tree(o):
             p = t.parent(v)
             if (p is None) != (par[v] < 0) or (p is not None and int(p) != par[v]):
                 bad.append((label + "parent wrong", {"vertex": v, "got": p, "want": par[v]}, None))
-            if sorted(int(x) for x in t.children(v)) != sorted(ch[v]):
+            if sorted(int(x) for x in t.children(v)) != sorted(ch[v]) or t.n_children(v) != len(ch[v]):
                 bad.append((label + "children wrong", {"vertex": v}, None))
+            # a tree is a directed graph: the inherited parents / edge tests agree with the tree's own relations
+            want_par = [] if par[v] < 0 else [par[v]]
+            got_par = list(t.parents(v))
+            if got_par != want_par or t.n_parents(v) != len(want_par):
+                bad.append((label + "parents() / n_parents() disagree with parent()", {"vertex": v, "got": got_par, "want": want_par}, None))
+            for w in range(n):
+                if bool(t.is_edge(v, w)) != (w in ch[v]):
+                    bad.append((label + "is_edge disagrees with children", {"pair": [v, w]}, None))
+                    break
             if t.depth_of_vertex(v) != dep[v]:
                 bad.append((label + "depth_of_vertex wrong", {"vertex": v, "got": t.depth_of_vertex(v), "want": dep[v]}, None))
             if bool(t.is_leaf(v)) != (v in o["leaves"]):
